@@ -35,6 +35,14 @@ func raceBody(d raceDesc) func() {
 		l := vnet.NewListener("L0")
 		started := false
 		vsched.ListenHook = func(network, address string) (interface{}, error) { return l, nil }
+		vsched.ActivationHook = nil
+		if d.Via == "activated" {
+			// a socket-activated start: Listen finds the inherited socket instead of binding the address
+			vsched.ActivationHook = func() interface{} { return l }
+			vsched.ListenHook = func(network, address string) (interface{}, error) {
+				return nil, fmt.Errorf("a socket-activated service bound %s:%s itself", network, address)
+			}
+		}
 		var timeout time.Duration
 		if d.Timer {
 			timeout = time.Hour
@@ -43,7 +51,7 @@ func raceBody(d raceDesc) func() {
 			var err error
 			started = true
 			w.ev("serve-start")
-			if d.Via == "listen" {
+			if d.Via == "listen" || d.Via == "activated" {
 				err = w.S.Listen(w.Ctx, "unix:@vx", timeout)
 			} else {
 				w.S.VerifSetListener(l)
@@ -167,6 +175,23 @@ func scenariosC16(tier string) []Scen {
 					out = append(out, Scen{Desc: d, Bound: bound, Body: raceBody(d), Check: raceCheck, Obs: raceObs})
 				}
 			}
+		}
+	}
+	// a socket-activated start (the listener comes from activationListener(), not from binding the address)
+	for _, os := range opSets {
+		if len(os) > 2 {
+			continue
+		}
+		for _, cs := range [][]string{nil, {"callhalf"}, {"info"}} {
+			d := raceDesc{Ops: os, Conns: cs, Via: "activated"}
+			bound := 3
+			if len(os)+len(cs) > 2 {
+				bound = 2
+			}
+			if tier != "quick" {
+				bound++
+			}
+			out = append(out, Scen{Desc: d, Bound: bound, Body: raceBody(d), Check: raceCheck, Obs: raceObs})
 		}
 	}
 	// client side: one goroutine at a time uses the connection; operations are cancelled at every
